@@ -312,6 +312,17 @@ func C15(p *core.Program, r *core.Report) {
 	// the "is the report-to endpoint ours" test walks the MuxAgent's children: the list must be read under its lock
 	checkMuxChildrenGuarded(p, r)
 
+	// "forwarded" is reported exactly when one sender's Send returned nil (forward's sent flag, checked above), so the
+	// report is truthful only if no Send implementation returns nil after one of its own steps failed.
+	nSend := 0
+	for _, n := range p.Implementations(claPkg, "ConvergenceSender") {
+		if send := p.MethodOf(n, "Send"); send != nil && send.Blocks != nil {
+			nSend++
+			checkErrorsNotSwallowed(p, r, send, "send-result/", nil)
+		}
+	}
+	r.Min("ConvergenceSender.Send implementations", 3)
+	r.Count("ConvergenceSender.Send implementations", nSend)
 }
 
 func boolToInt(v ssa.Value) ssa.Value {
